@@ -323,9 +323,12 @@ func (a *Adversary) AttackLockAmnesia(crash bool) bool {
 			return true
 		})
 	}
-	// move the others to round 1 (optionally through a crash)
+	// move the others to round 1 (optionally through a crash); in the late variant they crash
+	// only after they have signed something in round 1, so that the signer refuses to sign
+	// the locking precommit again while the WAL is replayed
+	late := crash && a.Rng.Intn(2) == 0
 	for _, B := range others {
-		if crash && a.Rng.Float64() < 0.6 {
+		if crash && !late && a.Rng.Float64() < 0.6 {
 			n.Crash(B)
 			a.Crashes++
 			if err := n.Restart(B); err != nil {
@@ -362,6 +365,75 @@ func (a *Adversary) AttackLockAmnesia(crash bool) bool {
 				}
 			}
 		}
+	}
+	if late {
+		for _, B := range others {
+			if !n.Nodes[B].Up {
+				continue
+			}
+			n.Crash(B)
+			a.Crashes++
+			if err := n.Restart(B); err != nil {
+				panic(fmt.Sprintf("restart failed: %v", err))
+			}
+			n.DrainInternal(B)
+		}
+		a.LateCrashes++
+		// the partition stays: nothing from the committer A, and no round-0 precommit for X that
+		// an honest validator has not seen yet, reaches the others; the Byzantine validators
+		// second whatever other block an honest validator prevotes at this height (prevote
+		// and precommit, once per round and block)
+		isOther := map[int]bool{}
+		seen := map[int]map[int]bool{}
+		for _, B := range others {
+			isOther[B] = true
+			seen[B] = map[int]bool{}
+			for id, d := range n.Deliv[B] {
+				if d {
+					seen[B][id] = true
+				}
+			}
+		}
+		a.Withhold = func(e *Env, to int) bool {
+			if !isOther[to] || e.H != h {
+				return false
+			}
+			if e.From == A && !e.Byz {
+				return true
+			}
+			return e.R == 0 && e.Kind == "precommit" && e.Block == blockHex(X) && !seen[to][e.ID]
+		}
+		defer func() { a.Withhold = nil }()
+		echoed := map[string]bool{}
+		for chunk := 0; chunk < 250; chunk++ {
+			done := true
+			for _, B := range others {
+				if n.Nodes[B].Store.Height() < h {
+					done = false
+				}
+			}
+			if done {
+				break
+			}
+			a.FairSuffix(h, 40)
+			for _, e := range n.Pool {
+				if e.H != h || e.Byz || e.Kind != "prevote" || e.Block == "" || e.Block == blockHex(X) {
+					continue
+				}
+				vm, ok := e.Msg.(*pbft.VoteMessage)
+				if !ok || vm.Vote == nil {
+					continue
+				}
+				key := fmt.Sprintf("%d/%X", e.R, vm.Vote.BlockID.Hash)
+				if echoed[key] {
+					continue
+				}
+				echoed[key] = true
+				a.byzVotes(vs, h, e.R, types.VoteTypePrevote, vm.Vote.BlockID)
+				a.byzVotes(vs, h, e.R, types.VoteTypePrecommit, vm.Vote.BlockID)
+			}
+		}
+		return true
 	}
 	a.FairSuffix(h, 8000)
 	return true
@@ -550,7 +622,9 @@ func (a *Adversary) AttackSplitLocks() bool {
 	Y := types.BlockID{Hash: rb.ProposalBlock.Hash(), PartsHeader: rb.ProposalBlockParts.Header()}
 	zPrevote := n.Publish(Z, true, &pbft.VoteMessage{Vote: n.SignVote(vs1, Z, h, 1, types.VoteTypePrevote, Y)})
 	// B: C's and Z's prevotes for X' -> polka, lock in round 1
-	n.DeliverMatching(B, func(e *Env) bool { return e.H == h && e.R == 1 && e.Kind == "prevote" && (e.From == C || e.ID == zPrevote.ID) })
+	n.DeliverMatching(B, func(e *Env) bool {
+		return e.H == h && e.R == 1 && e.Kind == "prevote" && (e.From == C || e.ID == zPrevote.ID)
+	})
 	// A and C: the three honest prevotes (X, X', X'): +2/3 of anything, no polka
 	for _, i := range []int{A, C} {
 		n.DeliverMatching(i, func(e *Env) bool { return e.H == h && e.R == 1 && e.Kind == "prevote" && !e.Byz })
